@@ -103,6 +103,9 @@ func cmdCheck(args []string) {
 	if *tier == "thorough" {
 		cc.timeoutS = 60
 	}
+	if os.Getenv("GVC_FAST") != "" {
+		cc.timeoutS = 3 // diagnostic runs only
+	}
 	cc.workDir = filepath.Join(*verif, "work", *prop)
 	os.RemoveAll(cc.workDir)
 	os.MkdirAll(cc.workDir, 0o755)
@@ -348,6 +351,11 @@ func (cc *checkCtx) verifyFn(name string, fn *ssa.Function) {
 	}
 	res.Obligations = mine
 	noRetry := map[string]bool{}
+	if os.Getenv("GVC_FAST") != "" {
+		for _, o := range res.Obligations {
+			noRetry[o.Name] = true
+		}
+	}
 	for _, k := range cc.known {
 		if k.Status == "known" {
 			noRetry[k.Obligation] = true
